@@ -618,4 +618,52 @@ theorem hremove_heap {lt : α → α → Bool} (h : StrictWeak lt) (xs : List α
         exact hN k a p hk hk1 hka hkp
       · contradiction
 
+/-! ### small facts used by Props/C08 -/
+
+theorem hpush_length (lt : α → α → Bool) (xs : List α) (x : α) : (hpush lt xs x).length = xs.length + 1 := by
+  unfold hpush up
+  rw [upF_length]; simp
+
+/-- what `heap.Pop` computes, spelled out: the root, and `down` on the shortened slice -/
+theorem hpop_eq (lt : α → α → Bool) (x0 : α) (r : List α) :
+    hpop lt (x0 :: r) = some (((down lt (swap (x0 :: r) 0 r.length) 0 r.length).1).getLastD x0,
+                              ((down lt (swap (x0 :: r) 0 r.length) 0 r.length).1).dropLast) := by
+  simp [hpop]
+
+theorem hpop_length (lt : α → α → Bool) (xs : List α) (e : α) (rest : List α) (hpop' : hpop lt xs = some (e, rest)) :
+    rest.length + 1 = xs.length := by
+  cases xs with
+  | nil => simp [hpop] at hpop'
+  | cons x0 r =>
+    rw [hpop_eq] at hpop'
+    injection hpop' with hpop'
+    injection hpop' with _ hr
+    subst hr
+    simp only [List.length_dropLast, List.length_cons]
+    unfold down; rw [downF_length, swap_length]; simp
+
+theorem modify_eq_set {β : Type} (f : β → β) : ∀ (es : List β) (i : Nat) (h : i < es.length), es.modify i f = es.set i (f es[i]) := by
+  intro es
+  induction es with
+  | nil => intro i h; simp at h
+  | cons e r ih =>
+    intro i h
+    cases i with
+    | zero => simp [List.modify]
+    | succ i => simp [List.modify_succ_cons, ih i (by simpa using h)]
+
+theorem unwrap_wrap {E : Type} (es : List E) : unwrapCells (wrap es) = some es := by
+  induction es with
+  | nil => rfl
+  | cons e r ih => simp only [wrap, List.map_cons, unwrapCells] at *; rw [ih]; rfl
+
+theorem heap_singleton {E : Type} (lt : E → E → Bool) (e : E) : Heap lt [e] := by
+  intro k a p hk hka
+  cases k with
+  | zero => omega
+  | succ k => simp at hka
+
+theorem mem_addVol (v : List Bytes) (k : Bytes) (h : k ∈ v) : k ∈ (if v.contains k then v else v ++ [k]) := by
+  by_cases hc : v.contains k = true <;> simp [hc, h]
+
 end Sugar.Evict
